@@ -1443,8 +1443,26 @@ fn with_parens_liberal(expr: &Expression) -> Markup {
 fn pretty_print_binop(op: &BinaryOperator, lhs: &Expression, rhs: &Expression) -> Markup {
     match op {
         BinaryOperator::ConvertTo => {
-            // never needs parens, it has the lowest precedence:
-            lhs.pretty_print() + op.pretty_print() + rhs.pretty_print()
+            // lowest precedence of all binary operators: only conditionals (and, on the
+            // right-hand side, another conversion) need parens
+            let lhs_markup = if matches!(lhs, Expression::Condition { .. }) {
+                with_parens(lhs)
+            } else {
+                lhs.pretty_print()
+            };
+            let rhs_markup = if matches!(
+                rhs,
+                Expression::Condition { .. }
+                    | Expression::BinaryOperator {
+                        op: BinaryOperator::ConvertTo,
+                        ..
+                    }
+            ) {
+                with_parens(rhs)
+            } else {
+                rhs.pretty_print()
+            };
+            lhs_markup + op.pretty_print() + rhs_markup
         }
         BinaryOperator::Mul => match (lhs, rhs) {
             (
@@ -1657,7 +1675,7 @@ impl PrettyPrint for Expression<'_> {
                     }
                 }
 
-                expr.pretty_print()
+                with_parens(expr)
                     + m::operator("(")
                     + itertools::Itertools::intersperse(
                         args.iter().map(|e: &Expression| e.pretty_print()),
@@ -1715,9 +1733,7 @@ impl PrettyPrint for Expression<'_> {
             AccessField {
                 expr, field_name, ..
             } => {
-                expr.pretty_print()
-                    + m::operator(".")
-                    + m::identifier(field_name.to_compact_string())
+                with_parens(expr) + m::operator(".") + m::identifier(field_name.to_compact_string())
             }
             List { elements, .. } => {
                 m::operator("[")
